@@ -383,6 +383,11 @@ func propC11(w *World, r *Report) {
 			r.Floor("H4", 5)
 		}
 	}
+	// a file bears its final name only once its content is complete: closed (compressed, counts written) before the
+	// rename (the stop-path rules of C10)
+	linkObligations(w, r, propC10, "C10", func(o *Obligation) bool {
+		return strings.HasPrefix(o.Construct, "the writer is closed before its file is renamed") || strings.HasPrefix(o.Construct, "FileWriter.Close compresses")
+	}, "H1")
 	// every frame of the stream reaches the files: the parsers reject exactly the frames with a zero pixel outside the
 	// border (a valid frame that is rejected is missing from every recording)
 	checkParsers(w, r, "H5")
